@@ -3,6 +3,7 @@ From Coq Require Import String Ascii List NArith Bool Arith Lia Permutation Sort
 From Jade Require Import Base Events.
 From Jade.Gen Require Import ReportsGen.
 Import ListNotations.
+Set Default Timeout 60.
 Open Scope string_scope.
 Open Scope list_scope.
 
